@@ -248,6 +248,7 @@ pub struct Weights {
     pub checkpoint: u32,
     pub restore: u32,
     pub open_cp: u32,
+    pub key_window: u32,
 }
 
 #[derive(Clone, Debug)]
@@ -336,6 +337,7 @@ pub fn step_strategy(p: &StepProfile) -> BoxedStrategy<Step> {
     add(w.checkpoint, (0u8..2).prop_map(|n| Step::Checkpoint { n }).boxed());
     add(w.restore, (0u8..2).prop_map(|n| Step::Restore { n }).boxed());
     add(w.open_cp, (0u8..2).prop_map(|n| Step::OpenCheckpoint { n }).boxed());
+    add(w.key_window, (any::<u16>(), prop_oneof![Just(8000u16), Just(16000), Just(30000), Just(65535)]).prop_map(|(lo, len)| Step::KeyWindow { lo, len }).boxed());
     Union::new_weighted(alts).boxed()
 }
 
